@@ -8,11 +8,11 @@ CONSTANTS
  DedupMode = "peer+id"
  AtomicDedup = TRUE
  AllowRelay = TRUE
- MCCfgs <- CfgAll
+ MCCfgs <- Cfg3
  Bodies = {x, y}
- MaxFSig = 99
+ MaxFSig = 5
  MaxB = 1
- Conc = 0
+ Conc = 3
  Lists = "best"
 SYMMETRY Sym
 INVARIANTS Safety
